@@ -401,6 +401,15 @@ def _parse_boundary(items: list):
 
 
 def parse_vtk(text: str):
+    try:
+        return _parse_vtk(text)
+    except FoamSyntaxError:
+        raise
+    except (ValueError, IndexError) as e:
+        raise FoamSyntaxError(f"VTK: malformed ({e!r})") from e
+
+
+def _parse_vtk(text: str):
     lines = [ln.strip() for ln in text.split("\n")]
     if not lines[0].startswith("# vtk DataFile"):
         raise FoamSyntaxError("not a VTK file")
